@@ -134,18 +134,21 @@ def ev(node, env):
             return getattr(obj, node.attr)
         raise Unsupported("attribute %s" % node.attr)
     if isinstance(node, ast.Call):
+        if any(k.arg is None for k in node.keywords) or any(isinstance(a, ast.Starred) for a in node.args):
+            raise Unsupported("star arguments")
+        kw = {k.arg: ev(k.value, env) for k in node.keywords}
         if isinstance(node.func, ast.Attribute):
             fn = ev(node.func, env)
-            if callable(fn) and not node.keywords:
-                return fn(*[ev(a, env) for a in node.args])
+            if callable(fn):
+                return fn(*[ev(a, env) for a in node.args], **kw)
         if isinstance(node.func, ast.Name):
             fn = env.get(node.func.id)
             if fn is None and node.func.id in ("range", "xrange"):
                 fn = range
             if fn is None and node.func.id in ("len", "int", "abs", "min", "max"):
                 fn = {"len": len, "int": int, "abs": abs, "min": min, "max": max}[node.func.id]
-            if callable(fn) and not node.keywords:
-                return fn(*[ev(a, env) for a in node.args])
+            if callable(fn):
+                return fn(*[ev(a, env) for a in node.args], **kw)
         raise Unsupported("call %s" % ast.unparse(node.func))
     raise Unsupported(type(node).__name__)
 
